@@ -345,13 +345,14 @@ class Machine(object):
         return seen
 
     def variants_of(self, nid):
-        """nid and everything customize()d from it, transitively, in creation order"""
-        out = [nid]
+        """nid and every live class customize()d from it, transitively, in creation order.
+        Intermediate classes that are not reachable from the pool (child_attrs_all followed by
+        child_attrs customizes the parent twice) have no live node but still link the chain."""
+        closure = [nid]
         for n in self.nodes:
-            if n.cls is not None and n.variant_of is not None and n.variant_of in out \
-                    and n.id not in out:
-                out.append(n.id)
-        return out
+            if n.variant_of is not None and n.variant_of in closure and n.id not in closure:
+                closure.append(n.id)
+        return [x for x in closure if self.nodes[x].cls is not None]
 
     def flat(self, nid):
         n = self.nodes[nid]
@@ -364,18 +365,40 @@ class Machine(object):
         return out
 
     def relation(self, b, srcs):
+        """kind of the bystander b relative to the operands (srcs[0] is the primary one)"""
         if b in srcs:
             return "source"
-        broot = self.root_of(b)
-        sroots = set(self.root_of(s) for s in srcs)
-        if broot in sroots:
+        if not srcs:
+            return "unrelated"
+        p = srcs[0]
+        preach = self.reach(p)
+        if b in preach:
+            return "source"      # a type the operand is built of (field type, member, parent)
+        broot, proot = self.root_of(b), self.root_of(p)
+        if broot == proot:
             return "sibling-derivative"
-        if any(self.root_of(x) in sroots for x in self.reach(b)):
+        if any(self.root_of(x) == proot for x in self.reach(b)):
             return "referrer"
-        for s in srcs:
-            if any(self.root_of(x) == broot for x in self.reach(s)):
-                return "component"
+        if any(self.root_of(x) == broot for x in preach):
+            return "component-derivative"
         return "unrelated"
+
+    def origin(self, nid):
+        seen = set()
+        while self.nodes[nid].variant_of is not None and nid not in seen:
+            seen.add(nid)
+            nid = self.nodes[nid].variant_of
+        return nid
+
+    def lineage(self, nid):
+        """the original (not customized) classes up the inheritance chain of nid"""
+        out = []
+        o = self.origin(nid)
+        while o is not None and o not in out:
+            out.append(o)
+            e = self.nodes[o].extends
+            o = None if e is None else self.origin(e)
+        return out
 
     def ref_equal(self, a, b, memo=None):
         if a == b:
@@ -570,15 +593,14 @@ class Machine(object):
         if node.exp_tn is not None and node.tn != node.exp_tn:
             self.fail("C15|derived-wrong|%s|type_name" % op,
                       "%s: type_name=%r requested, got %r" % (node.describe(), node.exp_tn, node.tn))
+        # (node.attrs now holds the actual values of any attribute reported above, so a verdict
+        # difference is never a mere consequence of an attribute difference)
         lv = live_verdicts(cls, node.fam)
-        if not diffs:
-            rv = ref_verdicts(node.fam, node.attrs)
-            if lv != rv:
-                self.fail("C15|derived-wrong|%s|verdict" % op,
-                          "%s: verdicts on the probe set %r differ from what its attributes mean %r "
-                          "(probes %r)" % (node.describe(), lv, rv, probes_for(node.fam)))
-                node.vexp = lv
-        else:
+        rv = ref_verdicts(node.fam, node.attrs)
+        if lv != rv:
+            self.fail("C15|derived-wrong|%s|verdict" % op,
+                      "%s: verdicts on the probe set %r differ from what its attributes mean %r "
+                      "(probes %r)" % (node.describe(), lv, rv, probes_for(node.fam)))
             node.vexp = lv
         if node.kind != "simple":
             items = list(cls._type_info.items())
@@ -652,11 +674,10 @@ class Machine(object):
         lv = live_verdicts(cls, node.fam)
         rv = node.vexp if node.vexp is not None else ref_verdicts(node.fam, node.attrs)
         if lv != rv:
-            if not diffs:
-                rel = rel or self.relation(nid, srcs)
-                self.fail("C15|aliasing|%s|verdict|%s" % (op, rel),
-                          "%s: validation verdicts on the probe set changed from %r to %r although "
-                          "no public attribute changed" % (node.describe(), rv, lv))
+            rel = rel or self.relation(nid, srcs)
+            self.fail("C15|aliasing|%s|verdict|%s" % (op, rel),
+                      "%s: validation verdicts on the probe set are %r; its public attributes "
+                      "mean %r" % (node.describe(), lv, rv))
             node.vexp = lv
         if node.kind == "simple":
             return
@@ -695,9 +716,16 @@ class Machine(object):
             ev = self.evolving
             if ev is not None and nid in ev[1] and \
                     [k for k, _ in items] == [k for k, _ in exp if k != ev[0]]:
-                self.fail("C15|propagation-missing|%s|%s" % (op, rel),
+                self.fail("C15|propagation-missing|%s" % op,
                           "%s was customized from the class the field %r was added to, but did not "
                           "receive it: %s" % (node.describe(), ev[0], changed))
+            elif ev is not None and nid not in ev[1] and \
+                    [k for k, _ in items if k != ev[0]] == [k for k, _ in exp] and \
+                    set(self.lineage(nid)) & set(self.lineage(srcs[0])):
+                self.fail("C15|aliasing|%s|fields|variant-of-related-class" % op,
+                          "%s is not customized from %s, the class the field %r was added to (their "
+                          "original classes are only related by inheritance), but received the "
+                          "field: %s" % (node.describe(), self.nodes[srcs[0]].describe(), ev[0], changed))
             else:
                 self.fail("C15|aliasing|%s|fields|%s" % (op, rel), "%s: %s" % (node.describe(), changed))
             node.fields = [(k, self.adopt(c)) for k, c in items]
@@ -779,7 +807,6 @@ class Machine(object):
             self.classes.append("skipped:" + str(op))
             return
         obs = self.is_observable(srcs)
-        before_nodes = len(self.nodes)
         try:
             new_pairs = thunk()
         except Exception as e:
@@ -796,24 +823,9 @@ class Machine(object):
         if obs:
             self.observable += 1
             self.classes.append("observable:" + kind)
-        if self.oracle:
-            self.invariant(kind, srcs, new_pairs)
-        else:
-            for cls, nid in new_pairs:
-                if cls not in self.reg:
-                    self._quiet_bind(cls, nid)
+        self.invariant(kind, srcs, new_pairs)
         for cls, nid in new_pairs:
             self.pool.append(self.reg[cls])
-        del before_nodes
-
-    def _quiet_bind(self, cls, nid):
-        """oracle-free mode (hash-seed replays): only the pool and the kinds matter"""
-        n = self.nodes[nid]
-        self._register(cls, n)
-        if n.kind != "simple":
-            n.fields = [(k, self.adopt(c)) for k, c in cls._type_info.items()]
-            ext = getattr(cls, "__extends__", None)
-            n.extends = None if ext is None else self.adopt(ext)
 
     # each op_* returns (kind label, source node ids, thunk -> [(new class, predicted node id)])
     def op_prim(self, step):
@@ -1066,11 +1078,9 @@ class Machine(object):
 
     # -- whole history -------------------------------------------------------
     def run(self, steps):
-        if self.oracle:
-            self.step_no = -1
-            self.newly = set()
-            self.invariant("initial-state", [], [])
+        self.step_no = -1
         self.newly = set()
+        self.invariant("initial-state", [], [])
         for i, step in enumerate(steps):
             if self.aborted:
                 break
@@ -1143,8 +1153,11 @@ class Machine(object):
         has_base = any(True for _ in el.iter("{http://www.w3.org/2001/XMLSchema}extension"))
         if self.oracle:
             self.check_schema(node, rows, has_base)
-        return {"rows": rows, "base": has_base,
-                "xml": etree.tostring(el, method="c14n").decode("utf8")}
+        # namespace prefixes (s0, s1, ...) are handed out in the order in which the interface
+        # walks a *set* of classes (address-ordered): not a matter of field order
+        xml = re.sub(r' (type|base)="(?!xs:)[A-Za-z0-9_]+:', r' \1="ns:',
+                     etree.tostring(el, method="c14n").decode("utf8"))
+        return {"rows": rows, "base": has_base, "xml": xml}
 
     def check_schema(self, node, rows, has_base):
         exp = []
@@ -1179,13 +1192,12 @@ class Machine(object):
                "dt": dtm.datetime(2020, 1, 2, 3, 4, 5, tzinfo=UTC), "bin": [b"a"]}
 
     def _value_for(self, c):
+        """a value for the leaves only: nested objects stay None (an optional None member is
+        left out by the protocols, a mandatory one is written as nil / null)"""
         kind, fam = self.classify(c)
-        if kind == "simple":
-            v = self._VALUES[fam]
-        elif kind == "array":
-            v = []
-        else:
-            v = (c.__orig__ or c)()
+        if kind != "simple":
+            return None
+        v = self._VALUES[fam]
         if c.Attributes.max_occurs > 1:
             v = [v]
         return v
@@ -1210,19 +1222,21 @@ class Machine(object):
             self.classes.append("protocol_error:" + type(e).__name__)
             return out
         if self.oracle:
-            flat = self.flat(node.id)
-            ref_names = [(self.nodes[m].attrs.get("sub_name") or k) for k, m in flat]
+            ref_names = []
+            for k, m in self.flat(node.id):
+                n = self.nodes[m]
+                if n.kind == "simple" or n.attrs["min_occurs"] > 0:
+                    ref_names.append(n.attrs.get("sub_name") or k)
             if len(set(ref_names)) != len(ref_names):
                 self.classes.append("dup_sub_name")
             elif out["dict"] != ref_names:
                 what = "dict" if sorted(out["dict"]) == sorted(ref_names) else "dict-content"
                 self.fail("C15|field-order|%s" % what, "%s: JsonDocument output keys %r, declaration order %r"
                           % (node.describe(), out["dict"], ref_names))
-            ref_xml = [(self.nodes[m].attrs.get("sub_name") or k) for k, m in flat]
-            if out["xml"] != ref_xml:
-                what = "xml" if sorted(out["xml"]) == sorted(ref_xml) else "xml-content"
+            if out["xml"] != ref_names:
+                what = "xml" if sorted(out["xml"]) == sorted(ref_names) else "xml-content"
                 self.fail("C15|field-order|%s" % what, "%s: XmlDocument children %r, declaration order %r"
-                          % (node.describe(), out["xml"], ref_xml))
+                          % (node.describe(), out["xml"], ref_names))
         return out
 
 
@@ -1236,7 +1250,9 @@ SEEDS = (1, 2, 3)
 
 
 def observe(case):
-    m = Machine(oracle=False)
+    """what a fresh interpreter sees at the end of the history (same interpretation of the
+    steps as in the search process: the reference model takes part in choosing operands)"""
+    m = Machine(oracle=True)
     m.run(case.get("steps") or [])
     return m.final_observation()
 
@@ -1268,16 +1284,20 @@ def replay_under_seeds(cases):
     return out
 
 
-def compare_seeds(case, mine, others):
-    """mine = observation in this process (PYTHONHASHSEED=0 under ./check);
-    others = {seed: observation}; -> failures"""
+def compare_seeds(case, others):
+    """others = {seed: observation in a fresh interpreter}; -> failures.  The observations of
+    fresh interpreters are compared with each other, not with the long-lived search process
+    (whose namespace-prefix counters and type names depend on the cases it ran before)."""
     fails = []
-    for seed, o in sorted(others.items()):
-        if o == mine:
+    seeds = sorted(others)
+    first = others[seeds[0]]
+    for seed in seeds[1:]:
+        o = others[seed]
+        if o == first:
             continue
         what, detail = "models", "different sets of pooled models"
-        for pi in sorted(set(mine) | set(o), key=int):
-            a, b = mine.get(pi), o.get(pi)
+        for pi in sorted(set(first) | set(o), key=int):
+            a, b = first.get(pi), o.get(pi)
             if a == b:
                 continue
             if a is not None and b is not None:
@@ -1286,7 +1306,8 @@ def compare_seeds(case, mine, others):
                     if a.get(k) != b.get(k):
                         what = "field-order-" + k
                         break
-            detail = "pool entry %s in this process: %r ; under PYTHONHASHSEED=%s: %r" % (pi, a, seed, b)
+            detail = ("pool entry %s under PYTHONHASHSEED=%s: %r ; under PYTHONHASHSEED=%s: %r"
+                      % (pi, seeds[0], a, seed, b))
             break
         fails.append(("C15|hashseed|%s" % what, detail))
     return fails
@@ -1403,7 +1424,7 @@ def _complex_step(draw, op):
 
 _OPS_EARLY = ["prim", "prim", "new", "new", "array", "mand"]
 _OPS_LATE = ["prim", "new", "sub", "sub", "cust", "cust", "child", "child", "child_all", "array",
-             "array", "mand", "mand", "append", "append", "insert"]
+             "array", "mand", "mand", "append", "append", "insert", "insert"]
 
 
 @st.composite
@@ -1424,7 +1445,7 @@ def histories(draw):
 
 # --------------------------------------------------------------------------- contract
 def shards(tier):
-    n = 50 if tier == "quick" else 1400
+    n = 100 if tier == "quick" else 1000
     return [{"kind": "hyp", "i": i, "n": n} for i in range(16)]
 
 
@@ -1438,8 +1459,7 @@ def run_case(case, rec, hashseed="no", sink=None):
     fails = list(m.fails)
     if hashseed == "now":
         others = replay_under_seeds([case])
-        fails.extend(compare_seeds(case, json.loads(json.dumps(obs)),
-                                   {s: o[0] for s, o in others.items()}))
+        fails.extend(compare_seeds(case, {s: o[0] for s, o in others.items()}))
     elif sink is not None:
         sink(case, obs, m)
     # one failure per signature per case is enough
@@ -1478,7 +1498,7 @@ def run_shard(shard, rec):
         ncx = sum(1 for p in m.pool if m.nodes[p].kind != "simple")
         if (every or ncx >= 2) and sink.taken < limit:
             sink.taken += 1
-            buf.append((case, json.loads(json.dumps(obs))))
+            buf.append(case)
         if len(buf) >= 150:
             flush()
     sink.taken = 0
@@ -1486,9 +1506,9 @@ def run_shard(shard, rec):
     def flush():
         if not buf:
             return
-        others = replay_under_seeds([c for c, _ in buf])
-        for i, (c, o) in enumerate(buf):
-            for sig, msg in compare_seeds(c, o, {s: v[i] for s, v in others.items()}):
+        others = replay_under_seeds(list(buf))
+        for i, c in enumerate(buf):
+            for sig, msg in compare_seeds(c, {s: v[i] for s, v in others.items()}):
                 rec.fail(sig, msg, c)
             rec.count("hashseed_histories")
         del buf[:]
